@@ -283,7 +283,7 @@ func PlayMulti(beh M, rng *rand.Rand, proj *Projection) ([][]M, error) {
 		}
 		tr := append([]M{{"k": "cfg", "c": Clean(cfg)}}, p.Out...)
 		tr = append(tr, M{"k": "x-maps", "own": own, "others": others, "parts": parts, "otherparts": otherParts})
-		tr = append(tr, M{"k": "x-global", "m": paramsObj(x.Global), "tlsok": tlsOK && x.TLSIntact()})
+		tr = append(tr, M{"k": "x-global", "m": paramsObj(x.Global), "tlsok": tlsOK && x.ConfigIntact()})
 		out = append(out, tr)
 	}
 	return out, nil
